@@ -39,7 +39,6 @@ TOP == 65536                       \* addresses are 0..TOP-1
 VARS == 23627
 PROG == 23635
 ELINE == 23641
-RAMBASE == 16384
 
 ----------------------------------------------------------------------------
 (* Memory: a fill byte and a few explicit regions (later regions do not     *)
@@ -447,8 +446,9 @@ EncVar(v) ==
 
 ----------------------------------------------------------------------------
 (* --peek A[-B[-C]] and --word A[-B[-C]]: "addresses A TO B STEP C" (C >= 1; *)
-(* B defaults to A, C to 1 for --peek and 2 for --word), one line per       *)
-(* address in the documented default formats                                *)
+(* B defaults to A, C to 1 as in BASIC; that --word steps by 2 when C is    *)
+(* not given is observed, not documented), one line per address in the      *)
+(* documented default formats                                               *)
 (*   {address:>5} {address:04X}: {value:>3}  {value:02X}  {value:08b}  {char}*)
 (*   {address:>5} {address:04X}: {value:>5}  {value:04X}                     *)
 Addresses(A, B, C) == IF B < A THEN <<>> ELSE [k \in 1..(((B - A) \div C) + 1) |-> A + (k - 1) * C]
@@ -479,9 +479,6 @@ FindFast(m, seq, steps, lo, hi) ==
   LET k0 == Anchor(m, seq)
       cands == {<<p - (k0 - 1) * s, s>> : p \in RegionAddrs(m), s \in steps} IN
   {c \in cands : c[1] >= lo /\ c[1] <= hi /\ MatchAt(m, seq, c[1], c[2], hi)}
-Steps(M, N) == M..N
 TileAddr(x, y) == 16384 + 2048 * (y \div 8) + 32 * (y % 8) + x
 TileBytes(m, base, x, y) == [k \in 1..8 |-> Peek(m, (base - 16384) + TileAddr(x, y) + 256 * (k - 1))]
-\* a 128K machine: eight banks of 16K; bank 5 at 0x4000, bank 2 at 0x8000, bank P at 0xC000 (manual of the 128, ch. 24)
-PagedBase(b, P) == (IF b = 5 THEN {16384} ELSE {}) \cup (IF b = 2 THEN {32768} ELSE {}) \cup (IF b = P THEN {49152} ELSE {})
 =============================================================================
